@@ -68,6 +68,14 @@ def run_jobs(jobs, wall_budget_s, per_job_cap_s=None, sample_every=None, progres
     results, skipped = [], []
     lock = threading.Lock()
     order = list(range(len(jobs)))
+    # longest-first scheduling from the costs measured by earlier runs (only affects wall time)
+    costs = {}
+    cpath = os.path.join(V, 'build', 'costs.json')
+    try:
+        costs = json.load(open(cpath))
+    except Exception:
+        pass
+    order.sort(key=lambda i: -costs.get(repr(jobs[i].key()), 1.0))
     if SEED:
         import random
         random.Random(SEED).shuffle(order)     # only the order in which programs are scheduled on workers
@@ -93,6 +101,16 @@ def run_jobs(jobs, wall_budget_s, per_job_cap_s=None, sample_every=None, progres
                 results.append(r)
             if progress and n % 200 == 0:
                 print('  ... %d/%d programs' % (n, len(jobs)), flush=True)
+    try:
+        for r in results:
+            if 'wall' in r:
+                costs[repr(r['job'].key())] = r['wall']
+        os.makedirs(os.path.join(V, 'build'), exist_ok=True)
+        with open(cpath + '.tmp', 'w') as fp:
+            json.dump(costs, fp)
+        os.replace(cpath + '.tmp', cpath)
+    except Exception:
+        pass
     return results, skipped
 
 _sym_cache = {}
